@@ -1205,7 +1205,7 @@ def fam_types(tier, seed):
         g.alpha = ["a"]
         add(g)
     # 3. names: Rust keywords as rule and field names, and the generator's own local names as field names
-    kws = RAW_OK if tier != "quick" else sample(rnd, RAW_OK, 12) + ["type", "match", "fn", "box", "async", "try"]
+    kws = RAW_OK if tier != "quick" else sample(rnd, RAW_OK, 12) + ["type", "match", "fn", "box", "async", "try", "impl"]
     for kw in dict.fromkeys(kws):
         g = Grammar("x", [Rule("S", Seq(Call(kw, kw), Opt(Call(kw, "o")), Clo(Call("Other", kw))), export=True),
                           Rule(kw, Lit("k"), position=True), Rule("Other", Call(kw, "@"))], meta={"shape": "keyword_" + kw})
